@@ -170,15 +170,42 @@ def check(ck):
         t_ = prov.origin(g, n_, e_)
         return all(a_[0] == "call" and a_[1] == ("global", "_find_fields") for a_ in prov.value_alts(t_))
     loops = [n for n in g.live_nodes() if n.kind == "for_body" and (dump(n.ast.iter) == "fields" or _is_field_set(n, n.ast.iter))]
-    okk = len(du) == 1 and len(loops) == 1 and du[0][0].id in dom[loops[0].id] and \
+    # the same filter written as a comprehension: X = [f for f in _find_fields(obj) if f not in <ignore list>], then `for .. in X`
+    comp = []
+    for n in g.live_nodes():
+        if n.kind == "stmt" and isinstance(n.ast, ast.Assign) and len(n.ast.targets) == 1 and isinstance(n.ast.targets[0], ast.Name):
+            v_ = n.ast.value
+            if isinstance(v_, ast.Call) and isinstance(v_.func, ast.Name) and v_.func.id in ("list", "set", "sorted", "tuple") and len(v_.args) == 1 and not v_.keywords:
+                v_ = v_.args[0]
+            if isinstance(v_, (ast.ListComp, ast.SetComp, ast.GeneratorExp)) and len(v_.generators) == 1:
+                ge_ = v_.generators[0]
+                if isinstance(ge_.target, ast.Name) and isinstance(v_.elt, ast.Name) and v_.elt.id == ge_.target.id and len(ge_.ifs) == 1 and \
+                        isinstance(ge_.ifs[0], ast.Compare) and len(ge_.ifs[0].ops) == 1 and isinstance(ge_.ifs[0].ops[0], ast.NotIn) and \
+                        dump(ge_.ifs[0].left) == ge_.target.id and \
+                        (dump(ge_.ifs[0].comparators[0]) == ilv or prov.origin(g, n, ge_.ifs[0].comparators[0]) == t) and \
+                        (q.is_func(prog.resolve_call(fd, ge_.iter), "jsonclass._find_fields") if isinstance(ge_.iter, ast.Call) else _is_field_set(n, ge_.iter)):
+                    comp.append(n)
+    if not du and len(comp) == 1:
+        cn_ = comp[0]
+        cv_ = cn_.ast.targets[0].id
+        loops_c = [n for n in g.live_nodes() if n.kind == "for_body" and dump(n.ast.iter) == cv_ and
+                   prov.rd_of(g).get(n.id, {}).get(cv_) == frozenset([cn_.id]) or
+                   (n.kind == "for_body" and dump(n.ast.iter) == cv_ and set(prov.rd_of(g).get(n.id, {}).get(cv_) or ()) == set([cn_.id]))]
+        ck.require(len(loops_c) == 1, "C20.3", "%s: fields.difference_update(%s) before the field loop" % (where, ilv), "the field loop walks the filtered list",
+                   "ignored names are not removed from the field set before the fields are dumped", q.loc(fd, iln))
+        ck.ok("C20.3", "%s: fields = _find_fields(obj)" % where, "the comprehension filters the field set itself", q.loc(fd, cn_))
+        du = None
+    okk = du is None or (len(du) == 1 and len(loops) == 1 and du[0][0].id in dom[loops[0].id] and \
         (dump(du[0][1].func.value) == "fields" or _is_field_set(du[0][0], du[0][1].func.value)) and \
-        len(du[0][1].args) == 1 and (dump(du[0][1].args[0]) == ilv or prov.origin(g, du[0][0], du[0][1].args[0]) == t)
-    ck.require(okk, "C20.3", "%s: fields.difference_update(%s) before the field loop" % (where, ilv), "dominates the loop",
-               "ignored names are not removed from the field set before the fields are dumped", q.loc(fd, iln))
+        len(du[0][1].args) == 1 and (dump(du[0][1].args[0]) == ilv or prov.origin(g, du[0][0], du[0][1].args[0]) == t))
+    if du is not None:
+        ck.require(okk, "C20.3", "%s: fields.difference_update(%s) before the field loop" % (where, ilv), "dominates the loop",
+                   "ignored names are not removed from the field set before the fields are dumped", q.loc(fd, iln))
     if "jsonclass._find_fields" not in prog.funcs:
         raise AnalysisError("anchor vanished: function jsonrpclib.jsonclass._find_fields (moved or renamed)")
     ff = q.call_sites(prog, fd, lambda r, c: q.is_func(r, "jsonclass._find_fields"))
-    ck.require(len(ff) == 1 and ff[0][0].id in dom[du[0][0].id] if du else False, "C20.3", "%s: fields = _find_fields(obj)" % where, "filtered set is the field set",
+    if du is not None:
+      ck.require(len(ff) == 1 and ff[0][0].id in dom[du[0][0].id] if du else False, "C20.3", "%s: fields = _find_fields(obj)" % where, "filtered set is the field set",
                "the filtered set is not the object's field set", q.loc(fd, fd.node))
 
     # ---- C20.4 configured names ------------------------------------------------------------------------------
@@ -257,6 +284,11 @@ def check(ck):
                                                                 for e in node_exprs(m))
             if is_type_test:
                 continue
+            # an identity test (`value is <sentinel>`) runs no code of the value
+            ident = [x for e in node_exprs(m) for cmp_ in ast.walk(e) if isinstance(cmp_, ast.Compare) and all(isinstance(o, (ast.Is, ast.IsNot)) for o in cmp_.ops)
+                     for x in [cmp_.left] + list(cmp_.comparators) if isinstance(x, ast.Name) and x.id == vname]
+            if m.kind in ("test", "branch") and len(ident) == len(uses):
+                continue
             from vlib.model import is_logging_call
             lazy = [x for cc in node_calls(m) if is_logging_call(cc) for x in cc.args if isinstance(x, ast.Name) and x.id == vname]
             if len(lazy) == len(uses):
@@ -281,4 +313,6 @@ def check(ck):
     from rules import c07 as _c07k, c15 as _c15k
     common.import_rules(ck, _c07k.rule_c07_7, {"C07.7": "C20.8"})
     common.import_rules(ck, _c15k.rule_c15_3, {"C15.3": "C20.8"})
+    from rules import c07 as _c07m
+    common.import_rules(ck, _c07m, {"C07.4": "C20.8"})      # (handlers apply to results and parameters of every type: the translation is not skipped by value)
     ck.floor("C20.8", 12)
